@@ -66,7 +66,15 @@ pub fn str_repeat_1(s: &str, n: usize) -> String {
         ACTIVE = true;
         PENDING_REPEAT = Some((s.as_bytes()[0], n));
     }
-    String::new()
+    empty_string()
+}
+
+/// An empty String built from explicit raw parts (capacity 0). `String::new()` as a promoted
+/// constant came out of Kani's codegen with a non-zero capacity in one crate context (CBMC trace:
+/// cap = 4, dangling pointer), which made its drop "free" a dangling pointer; see DESIGN appendix.
+#[inline(never)]
+pub fn empty_string() -> String {
+    unsafe { String::from_raw_parts(core::ptr::NonNull::<u8>::dangling().as_ptr(), 0, 0) }
 }
 
 /// stub for `alloc::string::String::push_str`
@@ -95,7 +103,7 @@ pub fn string_push_str(_s: &mut String, t: &str) {
 pub fn string_from_char(c: char) -> String {
     reset();
     put_char(c);
-    String::new()
+    empty_string()
 }
 
 /// The bytes appended so far: from the sink when the stubs are active (Kani), else from `real`.
